@@ -1,6 +1,619 @@
-//! C12 — harness module not built yet.
+//! C12 — whitelist schedules stay well-formed and cannot be bent once started.
+//! Drives the real plain / flex / Merkle whitelists through histories of schedule
+//! updates, per-address-limit updates and member removals at chosen clock values, records
+//! Config / HasStarted / HasEnded / IsActive after every step as Coq terms for the model
+//! comparison, and evaluates the property sentence directly on the observations.
+use crate::util::*;
+use crate::w_whitelist::*;
 use crate::Args;
-pub fn run(_a: &Args) {
-    eprintln!("C12: harness module not built yet");
-    std::process::exit(2);
+use serde::Deserialize;
+use serde_json::json;
+use std::collections::{BTreeMap, BTreeSet};
+
+const KINDS: [Kind; 3] = [Kind::Plain, Kind::Flex, Kind::Merkle];
+const S: u64 = 1_000_000_000;
+const T0: u64 = GENESIS + 1000 * S;
+
+#[derive(Clone, Debug, PartialEq, Eq)]
+struct SObs {
+    start: u64,
+    end: u64,
+    pal: u64,
+    num: u64,
+    cfg_active: bool,
+    started: bool,
+    ended: bool,
+    active: bool,
+}
+impl SObs {
+    fn coq(&self) -> String {
+        format!(
+            "(mkSobs {} {} {} {} {} {} {} {})",
+            self.start,
+            self.end,
+            self.pal,
+            self.num,
+            coq_bool(self.cfg_active),
+            coq_bool(self.started),
+            coq_bool(self.ended),
+            coq_bool(self.active)
+        )
+    }
+}
+
+fn observe(w: &World) -> SObs {
+    let c = w.query(&json!({"config": {}})).expect("config query");
+    let st = w.query(&json!({"has_started": {}})).expect("has_started");
+    let en = w.query(&json!({"has_ended": {}})).expect("has_ended");
+    let ac = w.query(&json!({"is_active": {}})).expect("is_active");
+    SObs {
+        start: u64_of(&c["start_time"]),
+        end: u64_of(&c["end_time"]),
+        pal: c.get("per_address_limit").and_then(|v| v.as_u64()).unwrap_or(0),
+        num: c["num_members"].as_u64().unwrap_or(u64::MAX),
+        cfg_active: c["is_active"].as_bool().unwrap_or(false),
+        started: st["has_started"].as_bool().unwrap_or(false),
+        ended: en["has_ended"].as_bool().unwrap_or(false),
+        active: ac["is_active"].as_bool().unwrap_or(false),
+    }
+}
+
+/// The activity clause of the property, evaluated on one observation at clock `now`.
+fn flags_monitor(now: u64, o: &SObs) -> Option<(&'static str, String)> {
+    if o.active != (o.start <= now && now < o.end) {
+        return Some(("is-active-wrong", format!("IsActive = {} at now={} with start={} end={}", o.active, now, o.start, o.end)));
+    }
+    if o.started != (now >= o.start) {
+        return Some(("has-started-wrong", format!("HasStarted = {} at now={} with start={}", o.started, now, o.start)));
+    }
+    if o.ended != (now >= o.end) {
+        return Some(("has-ended-wrong", format!("HasEnded = {} at now={} with end={}", o.ended, now, o.end)));
+    }
+    if o.cfg_active != o.active {
+        return Some(("config-active-differs", format!("Config.is_active = {} but IsActive = {} at now={}", o.cfg_active, o.active, now)));
+    }
+    None
+}
+fn shape_monitor(o: &SObs) -> Option<(&'static str, String)> {
+    if o.start > o.end {
+        return Some(("start-after-end", format!("start {} is after end {}", o.start, o.end)));
+    }
+    if o.start < GENESIS {
+        return Some(("start-before-genesis", format!("start {} is before the genesis mint time {}", o.start, GENESIS)));
+    }
+    None
+}
+
+struct Outcome {
+    coq: String,
+    evals: u64,
+    viol: Option<(String, String)>,
+    hist: Vec<String>,
+    nontrivial: bool,
+    sample: String,
+}
+
+fn run_history(h: &History) -> Outcome {
+    let kind = h.init.kind;
+    let mut w = World::new(kind);
+    let mut viol: Option<(String, String)> = None;
+    let mut flag = |k: &str, what: String, viol: &mut Option<(String, String)>| {
+        if viol.is_none() {
+            *viol = Some((format!("C12:{}:{}", kind.label(), k), what));
+        }
+    };
+    let mut hist = vec![];
+    let env0 = coq_env(h.init.now, h.init.sender, &h.init.funds);
+    let imsg = coq_imsg(&h.init);
+    let r = w.instantiate(&h.init);
+    hist.push(format!("{}:instantiate:{}", kind.label(), if r.is_ok() { "ok" } else { "err" }));
+    if let Err(e) = &r {
+        return Outcome {
+            coq: format!("C12Fail {} {} {}", kind.coq(), env0, imsg),
+            evals: 1,
+            viol: None,
+            hist,
+            nontrivial: !(e.contains("parsing") || e.contains("Payment") || e.contains("fee")),
+            sample: format!("instantiate rejected: {}", e.chars().take(100).collect::<String>()),
+        };
+    }
+    let mut evals = 1u64;
+    let o0 = observe(&w);
+    // created only with a start in the future
+    if !(h.init.now < o0.start) {
+        flag("created-already-started", format!("instantiate at now={} accepted start={}", h.init.now, o0.start), &mut viol);
+    }
+    if let Some((k, what)) = shape_monitor(&o0).or_else(|| flags_monitor(h.init.now, &o0)) {
+        flag(k, format!("after instantiate: {}", what), &mut viol);
+    }
+    let mut prev = o0.clone();
+    let mut steps_coq = vec![];
+    let mut sample = String::new();
+    let mut nontrivial = false;
+    for s in &h.steps {
+        evals += 1;
+        match &s.op {
+            None => {
+                w.set_time(s.now);
+                let o = observe(&w);
+                if let Some((k, what)) = shape_monitor(&o).or_else(|| flags_monitor(s.now, &o)) {
+                    flag(k, what, &mut viol);
+                }
+                if o.start != prev.start || o.end != prev.end {
+                    flag("schedule-moved-without-call", format!("{:?} -> {:?}", prev, o), &mut viol);
+                }
+                steps_coq.push(format!("SLook {} {}", s.now, o.coq()));
+                hist.push(format!("{}:look:ok", kind.label()));
+                prev = o;
+            }
+            Some(op) => {
+                let started_before = s.now >= prev.start;
+                let members_before = if kind == Kind::Merkle { vec![] } else { w.members_all(None).unwrap_or_default() };
+                let digest_before = w.digest();
+                let r = w.exec(s);
+                let ok = r.is_ok();
+                let o = observe(&w);
+                hist.push(format!("{}:{}:{}", kind.label(), op.kind_label(), if ok { "ok" } else { "err" }));
+                if sample.is_empty() && ok {
+                    sample = format!("{:?} at now={} -> {:?}", op, s.now, o);
+                }
+                if ok && matches!(op, Op::UpdStart(_) | Op::UpdEnd(_) | Op::Remove(_) | Op::UpdPal(_)) {
+                    nontrivial = true;
+                }
+                if !ok && w.digest() != digest_before {
+                    flag("rejected-call-changed-state", format!("{:?} at now={} was rejected but storage changed", op, s.now), &mut viol);
+                }
+                if let Some((k, what)) = shape_monitor(&o).or_else(|| flags_monitor(s.now, &o)) {
+                    flag(k, format!("after {:?} at now={}: {}", op, s.now, what), &mut viol);
+                }
+                if started_before {
+                    // once started: start fixed, end only brought forward, no removals
+                    if o.start != prev.start {
+                        flag("start-changed-after-start", format!("{:?} at now={} moved start {} -> {} although it had started", op, s.now, prev.start, o.start), &mut viol);
+                    }
+                    if o.end > prev.end {
+                        flag("end-extended-after-start", format!("{:?} at now={} moved end {} -> {} although it had started", op, s.now, prev.end, o.end), &mut viol);
+                    }
+                    if ok && matches!(op, Op::Remove(_)) {
+                        flag("removal-after-start", format!("{:?} at now={} accepted although start={}", op, s.now, prev.start), &mut viol);
+                    }
+                    if kind != Kind::Merkle {
+                        let after: BTreeSet<u64> = w.members_all(None).unwrap_or_default().iter().map(|m| m.0).collect();
+                        if let Some(gone) = members_before.iter().find(|m| !after.contains(&m.0)) {
+                            flag("member-gone-after-start", format!("{:?} at now={} removed member {} after the start", op, s.now, name(gone.0)), &mut viol);
+                        }
+                    }
+                }
+                steps_coq.push(format!(
+                    "SExec {} {} {} {}",
+                    coq_env(s.now, s.sender, &s.funds),
+                    coq_op(op),
+                    coq_bool(ok),
+                    o.coq()
+                ));
+                prev = o;
+            }
+        }
+    }
+    Outcome {
+        coq: format!("C12Hist {} {} {} {} {}", kind.coq(), env0, imsg, o0.coq(), coq_list(&steps_coq)),
+        evals,
+        viol,
+        hist,
+        nontrivial,
+        sample,
+    }
+}
+
+// ---------------------------------------------------------------- generators
+
+fn fee_for(kind: Kind, limit: u32) -> u128 {
+    match kind {
+        Kind::Merkle => 1_000_000_000,
+        _ => ((limit as u128 + 999) / 1000) * 100_000_000,
+    }
+}
+fn native(a: u128) -> Vec<(String, u128)> {
+    vec![(NATIVE.to_string(), a)]
+}
+
+fn base_init(kind: Kind, now: u64, start: u64, end: u64) -> Init {
+    let members: Vec<(u64, u32)> = if kind == Kind::Merkle { vec![] } else { vec![(100, 1), (101, 2), (102, 1)] };
+    Init {
+        kind,
+        now,
+        sender: 60,
+        funds: native(fee_for(kind, 10)),
+        members: vec![members],
+        start,
+        end,
+        pal: 2,
+        limit: 10,
+        whale: None,
+        admins: vec![60, 61],
+        mutable: true,
+        root_ok: true,
+        stages: vec![],
+    }
+}
+fn call(now: u64, sender: u64, op: Op) -> Step {
+    Step { now, sender, funds: vec![], op: Some(op) }
+}
+fn look(now: u64) -> Step {
+    Step { now, sender: 60, funds: vec![], op: None }
+}
+fn around(t: u64) -> Vec<u64> {
+    vec![t.saturating_sub(1), t, t.saturating_add(1)]
+}
+/// looks at start/end +-1 ns of the given window, in clock order from `from`
+fn looks_after(from: u64, start: u64, end: u64) -> Vec<Step> {
+    let mut ts: BTreeSet<u64> = BTreeSet::new();
+    for t in around(start).into_iter().chain(around(end)) {
+        if t >= from {
+            ts.insert(t);
+        }
+    }
+    ts.into_iter().map(look).collect()
+}
+
+fn corpus(kind: Kind) -> Vec<History> {
+    let mut v = vec![];
+    let (st, en) = (T0 + 100 * S, T0 + 200 * S);
+    // shorten the end, then move the start up to it and past it
+    v.push(History {
+        init: base_init(kind, T0, st, en),
+        steps: vec![
+            call(T0 + 1, 60, Op::UpdEnd(T0 + 150 * S)),
+            call(T0 + 2, 60, Op::UpdStart(T0 + 150 * S + 1)),
+            call(T0 + 3, 60, Op::UpdStart(T0 + 150 * S)),
+            look(T0 + 150 * S - 1),
+            look(T0 + 150 * S),
+            look(T0 + 150 * S + 1),
+        ],
+    });
+    // everything exactly at the start instant
+    v.push(History {
+        init: base_init(kind, T0, st, en),
+        steps: vec![
+            call(st, 60, Op::UpdStart(st + 5)),
+            call(st, 60, Op::UpdEnd(en + 1)),
+            call(st, 60, Op::Remove(vec![100])),
+            call(st, 60, Op::UpdEnd(en - 1)),
+            call(st, 60, Op::UpdEnd(st)),
+            call(st, 60, Op::UpdEnd(st - 1)),
+            call(st, 60, Op::UpdPal(5)),
+            look(st),
+            look(st + 1),
+        ],
+    });
+    // one instant before the start everything is still allowed
+    v.push(History {
+        init: base_init(kind, T0, st, en),
+        steps: vec![
+            call(st - 1, 60, Op::Remove(vec![100])),
+            call(st - 1, 60, Op::UpdEnd(en + 7)),
+            call(st - 1, 60, Op::UpdStart(st + 5)),
+            look(st),
+            look(st + 5),
+            call(st + 5, 60, Op::Remove(vec![101])),
+            call(st + 5, 60, Op::UpdStart(st + 9)),
+            look(en + 7),
+        ],
+    });
+    // a start before genesis is clamped to genesis; created before genesis
+    v.push(History {
+        init: base_init(kind, GENESIS - 100 * S, GENESIS + 50, GENESIS + 90),
+        steps: vec![
+            call(GENESIS - 50, 60, Op::UpdStart(GENESIS - 7)),
+            look(GENESIS - 1),
+            look(GENESIS),
+            call(GENESIS, 60, Op::UpdStart(GENESIS + 1)),
+            look(GENESIS + 89),
+            look(GENESIS + 90),
+        ],
+    });
+    // clamped while the clock is already past genesis: the whitelist starts at once
+    v.push(History {
+        init: base_init(kind, T0, st, en),
+        steps: vec![call(T0 + 5, 60, Op::UpdStart(5)), look(T0 + 5), call(T0 + 6, 60, Op::UpdStart(st)), call(T0 + 6, 60, Op::UpdEnd(T0))],
+    });
+    // empty window start == end
+    v.push(History { init: base_init(kind, T0, st, st), steps: looks_after(T0, st, st) });
+    // end shortened below "now" after the start
+    v.push(History {
+        init: base_init(kind, T0, st, en),
+        steps: vec![call(st + 50, 61, Op::UpdEnd(st + 10)), look(st + 50), call(st + 51, 61, Op::UpdEnd(st + 11)), call(st + 52, 61, Op::UpdEnd(st))],
+    });
+    v
+}
+
+fn probes(kind: Kind) -> Vec<History> {
+    let mut v = vec![];
+    let (st, en) = (T0 + 100 * S, T0 + 200 * S);
+    // instantiate: start vs end, start vs now, start vs genesis
+    for s in around(en) {
+        v.push(History { init: base_init(kind, T0, s, en), steps: vec![look(T0)] });
+    }
+    for s in around(T0) {
+        v.push(History { init: base_init(kind, T0, s, en), steps: vec![look(T0), look(T0 + 1)] });
+    }
+    for s in around(GENESIS) {
+        v.push(History { init: base_init(kind, GENESIS - 10, s, en), steps: vec![look(GENESIS - 1), look(GENESIS), look(GENESIS + 1)] });
+    }
+    // update_start_time: clock vs start, new value vs end, new value vs genesis, sender
+    for now in around(st) {
+        for t in [st - 5, st + 5, st] {
+            let mut steps = vec![call(now, 60, Op::UpdStart(t))];
+            steps.extend(looks_after(now, st, en));
+            v.push(History { init: base_init(kind, T0, st, en), steps });
+        }
+    }
+    for t in around(en) {
+        let mut steps = vec![call(T0 + 1, 60, Op::UpdStart(t))];
+        steps.extend(looks_after(T0 + 1, t, en));
+        v.push(History { init: base_init(kind, T0, st, en), steps });
+    }
+    for t in around(GENESIS) {
+        v.push(History {
+            init: base_init(kind, GENESIS - 10, GENESIS + 20, GENESIS + 40),
+            steps: vec![call(GENESIS - 9, 60, Op::UpdStart(t)), look(GENESIS - 1), look(GENESIS), look(GENESIS + 1), look(GENESIS + 20)],
+        });
+    }
+    for sender in [60, 61, 62] {
+        v.push(History {
+            init: base_init(kind, T0, st, en),
+            steps: vec![
+                call(T0 + 1, sender, Op::UpdStart(st + 1)),
+                call(T0 + 2, sender, Op::UpdEnd(en - 1)),
+                call(T0 + 3, sender, Op::Remove(vec![102])),
+                call(T0 + 4, sender, Op::UpdPal(3)),
+                look(T0 + 5),
+            ],
+        });
+    }
+    // update_end_time: (clock vs start) x (new value vs old end); new value vs start
+    for now in around(st) {
+        for t in around(en) {
+            let mut steps = vec![call(now, 60, Op::UpdEnd(t))];
+            steps.extend(looks_after(now, st, t.min(en)));
+            v.push(History { init: base_init(kind, T0, st, en), steps });
+        }
+        for t in around(st) {
+            let mut steps = vec![call(now, 60, Op::UpdEnd(t))];
+            steps.extend(looks_after(now, st, st));
+            v.push(History { init: base_init(kind, T0, st, en), steps });
+        }
+    }
+    // extend twice before the start, then try again after it
+    v.push(History {
+        init: base_init(kind, T0, st, en),
+        steps: vec![
+            call(T0 + 1, 60, Op::UpdEnd(en + 10)),
+            call(st + 1, 60, Op::UpdEnd(en + 11)),
+            call(st + 1, 60, Op::UpdEnd(en + 10)),
+            call(st + 2, 60, Op::UpdEnd(en + 9)),
+            call(en + 20, 60, Op::UpdEnd(en + 9)),
+            call(en + 20, 60, Op::UpdEnd(en + 10)),
+            look(en + 9),
+        ],
+    });
+    // remove_members: clock vs start
+    for now in around(st) {
+        v.push(History {
+            init: base_init(kind, T0, st, en),
+            steps: vec![call(now, 60, Op::Remove(vec![101])), call(now, 60, Op::Remove(vec![100, 102])), look(now)],
+        });
+    }
+    // update_per_address_limit: value bound, before and after the start
+    for now in [T0 + 1, st, en + 1] {
+        for n in [0u32, 1, 29, 30, 31] {
+            v.push(History { init: base_init(kind, T0, st, en), steps: vec![call(now, 60, Op::UpdPal(n)), look(now)] });
+        }
+    }
+    v
+}
+
+fn random_history(kind: Kind, rng: &mut Rng, pool: &[u64]) -> History {
+    let now0 = if rng.chance(1, 8) { GENESIS - rng.range(1, 100) } else { T0 + rng.below(50) };
+    let st = now0 + rng.range(10, 80);
+    let en = st + rng.below(60);
+    let mut init = base_init(kind, now0, st, en);
+    init.pal = rng.range(1, 30) as u32;
+    let mut steps = vec![];
+    let mut now = now0;
+    let (mut cs, mut ce) = (st, en);
+    let n = rng.range(12, 40);
+    for _ in 0..n {
+        // the clock drifts towards and across the window
+        now = now.saturating_add(match rng.below(12) {
+            0 | 1 => 0,
+            2 | 3 => 1,
+            4 => cs.saturating_sub(now.saturating_add(1)),
+            5 => cs.saturating_sub(now),
+            6 => ce.saturating_sub(now.saturating_add(1)),
+            7 => ce.saturating_sub(now),
+            _ => rng.below(5),
+        });
+        let near = |rng: &mut Rng, xs: &[u64]| -> u64 {
+            if rng.chance(1, 12) {
+                return *rng.pick(pool);
+            }
+            let b = *rng.pick(xs);
+            match rng.below(5) {
+                0 => b.saturating_sub(1),
+                1 => b,
+                2 => b.saturating_add(1),
+                3 => b.saturating_sub(rng.below(20)),
+                _ => b.saturating_add(rng.below(20)),
+            }
+        };
+        let sender = if rng.chance(1, 10) { 62 } else { *rng.pick(&[60u64, 61]) };
+        let mut roll = rng.below(10);
+        if now >= cs && roll <= 2 && rng.chance(3, 4) {
+            roll = rng.range(3, 9); // a started whitelist refuses every start update: try it less often
+        }
+        let op = match roll {
+            0..=2 if rng.chance(1, 2) && now < ce.saturating_sub(1) => Some(Op::UpdStart(rng.range(now + 1, ce))),
+            3..=5 if rng.chance(1, 2) => Some(Op::UpdEnd(if now >= cs { if cs <= ce { rng.range(cs, ce) } else { cs } } else { cs.saturating_add(rng.below(70)) })),
+            0..=2 => Some(Op::UpdStart(near(rng, &[cs, ce, now, GENESIS]))),
+            3..=5 => Some(Op::UpdEnd(near(rng, &[cs, ce, now]))),
+            6 => Some(Op::Remove(vec![*rng.pick(&[100u64, 101, 102, 103])])),
+            7 => Some(Op::UpdPal(*rng.pick(&[0u32, 1, 5, 30, 31]))),
+            8 => Some(Op::Add(vec![(rng.range(100, 106), 1)])),
+            _ => None,
+        };
+        // keep our idea of the window roughly current (used only to aim values)
+        match &op {
+            Some(Op::UpdStart(t)) if sender != 62 && now < cs && *t <= ce => cs = (*t).max(GENESIS),
+            Some(Op::UpdEnd(t)) if sender != 62 && *t >= cs && !(now >= cs && *t > ce) => ce = *t,
+            _ => {}
+        }
+        steps.push(Step { now, sender, funds: vec![], op });
+    }
+    History { init, steps }
+}
+
+fn malformed(kind: Kind, rng: &mut Rng) -> Vec<History> {
+    let (st, en) = (T0 + 100 * S, T0 + 200 * S);
+    let mut v = vec![];
+    for funds in [vec![], native(fee_for(kind, 10) - 1), native(fee_for(kind, 10) + 1), vec![("uother".to_string(), fee_for(kind, 10))]] {
+        let mut i = base_init(kind, T0, st, en);
+        i.funds = funds;
+        v.push(History { init: i, steps: vec![] });
+    }
+    let mut i = base_init(kind, T0, st, en);
+    i.root_ok = false;
+    i.admins = if kind == Kind::Merkle { vec![60] } else { vec![60, 51] };
+    v.push(History { init: i, steps: vec![] });
+    let mut i = base_init(kind, T0, st, en);
+    i.admins = vec![];
+    v.push(History { init: i, steps: vec![call(T0 + 1, 60, Op::UpdStart(st + 1)), look(T0 + 2)] });
+    // huge timestamps
+    let big = u64::MAX - rng.below(3);
+    v.push(History {
+        init: base_init(kind, T0, st, en),
+        steps: vec![call(T0 + 1, 60, Op::UpdEnd(big)), call(T0 + 2, 60, Op::UpdStart(big)), look(big), call(big, 60, Op::UpdEnd(0)), call(big, 60, Op::Freeze), look(big)],
+    });
+    v.push(History {
+        init: base_init(kind, T0, st, en),
+        steps: vec![call(T0 + 1, 60, Op::Freeze), call(T0 + 2, 60, Op::UpdAdmins(vec![62])), call(T0 + 3, 60, Op::UpdStart(st + 1)), call(T0 + 4, 62, Op::UpdStart(st + 2))],
+    });
+    v.push(History {
+        init: base_init(kind, T0, st, en),
+        steps: vec![call(T0 + 2, 60, Op::UpdAdmins(vec![62])), call(T0 + 3, 60, Op::UpdStart(st + 1)), call(T0 + 4, 62, Op::UpdStart(st + 2)), call(T0 + 5, 62, Op::UpdAdmins(vec![50]))],
+    });
+    v
+}
+
+fn gen_histories(a: &Args) -> Vec<History> {
+    let mut rng = Rng::new(a.seed);
+    let mut pool: Vec<u64> = vec![0, 1, GENESIS - 1, GENESIS, GENESIS + 1, u64::MAX];
+    for l in harvest_literals(&[
+        "contracts/whitelists/whitelist/src/contract.rs",
+        "contracts/whitelists/whitelist-flex/src/contract.rs",
+        "contracts/whitelists/whitelist-merkletree/src/contract.rs",
+        "packages/sg-utils/src/lib.rs",
+    ]) {
+        for d in [l.saturating_sub(1), l, l.saturating_add(1)] {
+            if d <= u64::MAX as u128 {
+                pool.push(d as u64);
+            }
+        }
+    }
+    let mut v = vec![];
+    for k in KINDS {
+        v.extend(corpus(k));
+    }
+    for k in KINDS {
+        v.extend(probes(k));
+    }
+    let nrand = if a.thorough() { 1500 } else { 100 };
+    for k in KINDS {
+        for _ in 0..nrand {
+            v.push(random_history(k, &mut rng, &pool));
+        }
+    }
+    for k in KINDS {
+        v.extend(malformed(k, &mut rng));
+    }
+    v
+}
+
+/// drop steps one at a time while the same violation key is still produced
+fn shrink(h: &History, key: &str) -> History {
+    let mut cur = h.clone();
+    loop {
+        let mut progressed = false;
+        let mut i = 0;
+        while i < cur.steps.len() {
+            let mut cand = cur.clone();
+            cand.steps.remove(i);
+            match run_history(&cand).viol {
+                Some((k, _)) if k == key => {
+                    cur = cand;
+                    progressed = true;
+                }
+                _ => i += 1,
+            }
+        }
+        if !progressed {
+            return cur;
+        }
+    }
+}
+
+pub fn run(a: &Args) {
+    let out = OutDir::new(&a.out);
+    let mut rep = Report { property: "C12".into(), tier: a.tier.clone(), seed: a.seed, ..Default::default() };
+    let hs: Vec<History> = if let Some(p) = &a.replay {
+        #[derive(Deserialize)]
+        struct ReplayFile {
+            case: History,
+        }
+        let txt = std::fs::read_to_string(p).expect("replay file");
+        let rf: ReplayFile = serde_json::from_str(&txt).expect("replay json");
+        vec![rf.case]
+    } else {
+        gen_histories(a)
+    };
+    let mut coq_cases = Vec::with_capacity(hs.len());
+    let mut distinct = BTreeSet::new();
+    let mut seen_keys: BTreeMap<String, u32> = BTreeMap::new();
+    let mut nviol = 0;
+    for (i, h) in hs.iter().enumerate() {
+        let o = run_history(h);
+        rep.evaluations += o.evals;
+        for k in &o.hist {
+            rep.bump(k);
+        }
+        if o.nontrivial {
+            distinct.insert(h.clone());
+        }
+        if let Some((key, what)) = &o.viol {
+            nviol += 1;
+            let n = seen_keys.entry(key.clone()).or_insert(0);
+            *n += 1;
+            if *n <= 2 && rep.violations.len() < 20 {
+                let small = shrink(h, key);
+                let what2 = run_history(&small).viol.map(|v| v.1).unwrap_or(what.clone());
+                let body = format!(
+                    "{{\n \"property\": \"C12\",\n \"key\": {},\n \"case\": {},\n \"violation\": {}\n}}\n",
+                    serde_json::to_string(key).unwrap(),
+                    serde_json::to_string(&small).unwrap(),
+                    serde_json::to_string(&what2).unwrap()
+                );
+                let path = out.write_replay(&format!("C12-{}.json", rep.violations.len() + 1), &body);
+                rep.violations.push(Violation { key: key.clone(), what: format!("{}: {}", h.init.kind.label(), what2), replay: path });
+            }
+        }
+        if rep.samples.len() < 3 && (i % 97 == 3 || a.replay.is_some()) {
+            rep.samples.push(json!({"history": format!("{:?} + {} steps", h.init.kind, h.steps.len()), "impl_output": o.sample}));
+        }
+        coq_cases.push(o.coq);
+    }
+    rep.distinct_nontrivial = distinct.len() as u64;
+    rep.rule = "histories on the real whitelist, whitelist-flex and whitelist-merkletree contracts: curated interleavings, guard-boundary probes (every time guard at -1/0/+1 ns, every sender role, per kind), random monotone-clock histories, malformed stream; evaluations = instantiate + calls + clock looks. Non-trivial = distinct history with at least one accepted schedule / removal / per-address-limit call.".into();
+    out.write_cases("C12", "From LP Require Import Wl C12Corr.", "c12_case", "c12_check", &coq_cases, 6, &mut rep);
+    out.finish(&rep);
+    println!("C12 harness: {} histories, {} steps, {} monitor violations", hs.len(), rep.evaluations, nviol);
 }
